@@ -127,12 +127,16 @@ def gen_cli_case(rng, g):
             k = rng.choice(['syntax', 'syntax', 'syntax', 'head', 'head', 'visitor', 'visitor', 'badutf8', 'badutf8', 'missing', 'missing',
                             'toolarge', 'bignum'])
         else:
-            k = rng.choice(['good', 'good', 'good', 'rich', 'never', 'empty'])
+            k = rng.choice(['good', 'good', 'anon', 'anon', 'anon', 'rich', 'never', 'empty'])
         kinds.append(k)
         if k == 'good':
             text = _small(g.program)
         elif k == 'rich':
             text = _small(lambda: g.program(nclauses=2, rich=0.7))
+        elif k == 'anon':
+            # interleaved clause groups with several `_` each and directives with `_`: the numbering of the anonymous
+            # variables must be the same whatever is traced
+            text = _small(g.anon_program)
         elif k == 'never':
             text = g.never_succeeds()
         elif k == 'empty':
@@ -210,9 +214,9 @@ def builtin_corpus():
         L.append({'kind': 'comment', 'msg': m})
     for t in ['', '#\n', '# a\nx\n', 'x\r#y\r\n#z', '\n\n', ' #a\n#b', '#\r\nx', 'a\r', '#a\r', HEADER + '\ndef f():\n  pass\n']:
         L.append({'kind': 'strip', 'text': t})
-    def cli(files, sources, stdin='', outfile='out.py'):
+    def cli(files, sources, stdin='', outfile='out.py', combos=None):
         L.append({'kind': 'cli', 'files': files, 'sources': sources, 'stdin': ['text', stdin] if stdin is not None else ['bad'],
-                  'outfile': outfile, 'modesalt': len(L) % 2, 'combos': 'all' if len(L) < 27 else ['even', 'odd'][len(L) % 2]})
+                  'outfile': outfile, 'modesalt': len(L) % 2, 'combos': combos or ('all' if len(L) < 27 else ['even', 'odd'][len(L) % 2])})
     good = 'foo(a).\nbar(X) :- foo(X).\n'
     nl = "foo('a\nimport os').\nbar(X) :- 'x\rimport sys'(X), foo('u\u2028v', 'f\x0cg').\n"
     cli([['a.pl', good]], ['a.pl'])
@@ -231,6 +235,10 @@ def builtin_corpus():
     cli([['x\ny.pl', 'foo(.\n']], ['x\ny.pl'])
     cli([['a.pl', good], ['b.pl', nl]], ['a.pl', 'b.pl'], outfile='a.pl')   # output file = first source
     cli([['a.pl', ''], ['b.pl', '% c\n']], ['a.pl', 'b.pl', 'a.pl'])
+    anon = 'p(_, a).\nq(_).\np(_, b).\n'
+    anond = 'p(_, a) :- r(_, _).\n:- d(_, X, _).\nq(_).\np(_, b) :- r(_).\n:- e(_).\nq(_, _).\n'
+    cli([['a.pl', anon], ['b.pl', anond]], ['a.pl', 'b.pl'], combos='all')
+    cli([['a.pl', anond]], ['a.pl', '-'], stdin=anon, combos='odd')
     cli([['a.pl', good], ['big.pl', 'p :- ' + ', '.join(['q'] * 25) + '.\n']], ['a.pl', 'big.pl'])    # too large: CompilerError at 0:0
     cli([['a.pl', good], ['num.pl', 'p(' + '1' * 4400 + ').\n']], ['a.pl', 'num.pl', 'a.pl'])      # ValueError: traceback
     cli([['a.pl', good]], ['a.pl', '-'], stdin=nl, outfile='-')                                       # -o - is stdout
